@@ -195,8 +195,10 @@ class SymNP:
         if has_sym(obj):
             if dtype is not None and _np.dtype(dtype).names:
                 odt = _objectify_dtype(dtype)
-                # (a SymArray view: the object fields of the table then keep astype() symbolic, too)
-                return _np.array(obj, dtype=odt, *a, **k).view(SymArray)
+                r = _np.array(obj, dtype=odt, *a, **k)
+                # "module!!": a SymArray view, so that table[field].astype(float) stays symbolic, too (opt-in: SymArray
+                # indexing turns symbolic masks into forks, which multiplies paths for harnesses that filter tables)
+                return r.view(SymArray) if self.structured_view else r
             return _build_object(obj)
         return _np.array(obj, dtype, *a, **k) if dtype is not None else _np.array(obj, *a, **k)
 
@@ -299,6 +301,7 @@ class SymNP:
             return one(v.item() if isinstance(v, _np.ndarray) else v)
         return _np.searchsorted(a, v, side=side, sorter=sorter)
 
+    structured_view = False
     zeros_object = False  # per-instance switch: float zeros become object arrays under symbolic execution
 
     def zeros(self, shape, dtype=float, *a, **k):
@@ -368,13 +371,18 @@ def _sym_round(v):
 NP = SymNP()
 NP_OBJ = SymNP()
 NP_OBJ.zeros_object = True
+NP_OBJ_SV = SymNP()
+NP_OBJ_SV.zeros_object = True
+NP_OBJ_SV.structured_view = True
 
 
 def install(modules=("partitura.score",)):
     import importlib
 
     for m in modules:
-        if m.endswith("!"):  # "module!" : float zeros()/ones() become object arrays under symbolic execution
+        if m.endswith("!!"):  # "module!!" : like "module!", and structured object tables are SymArray views
+            importlib.import_module(m[:-2]).np = NP_OBJ_SV
+        elif m.endswith("!"):  # "module!" : float zeros()/ones() become object arrays under symbolic execution
             importlib.import_module(m[:-1]).np = NP_OBJ
         else:
             importlib.import_module(m).np = NP
